@@ -2125,8 +2125,19 @@ def infidelity(
             raise ValueError('Pulse correlation infidelities requested '
                              + 'but omega not equal to cached frequencies.')
 
-        filter_function = pulse.get_pulse_correlation_filter_function()
         identity_idx = _identity_element_index(pulse.basis)
+        if not pulse.basis.istraceless:
+            # As for the total infidelity the trace tensor plays a role
+            traces = pulse.basis.four_element_traces
+            traces_diag = (sparse.diagonal(traces, axis1=2, axis2=3).sum(-1)
+                           - sparse.diagonal(traces, axis1=1, axis2=3).sum(-1)).todense()
+
+            control_matrix = pulse.get_pulse_correlation_control_matrix()
+            filter_function = np.einsum('gako,hblo,kl->ghabo',
+                                        control_matrix.conj(), control_matrix, traces_diag)/pulse.d
+        else:
+            filter_function = pulse.get_pulse_correlation_filter_function()
+
         if identity_idx.size and pulse.is_cached('control_matrix_pc'):
             # See above
             control_matrix = pulse.get_pulse_correlation_control_matrix()[:, :, identity_idx]
